@@ -2,8 +2,9 @@
 //! and the slots are read from the returned reflection metadata (what the property's "observe at" names).
 //!
 //! request : C06.compile \t <dx|vk|vkba|msl> \t <all|name=X|nopipeline> \t <pipes> \t <decls>
-//!   pipes : `-` or `;`-joined `<name>:<default group|->:<c|g>:<used declaration indices, '.'-joined>`
-//!           (`c` = compute pipeline, `g` = vertex + pixel pipeline; in source order)
+//!   pipes : `-` or `;`-joined `<name>:<default group|->:<c|g>[=<k>]:<used declaration indices, '.'-joined>`
+//!           (`c` = compute pipeline, `g` = vertex + pixel pipeline; `=<k>`: built from the entry points of the k-th
+//!           pipeline, which has the same kind; in source order)
 //!   decls : `;`-joined `<name>=<decl>~<flags>` in source order; <decl> as in C06.assign
 //!           (`o` | `c:<set|->` | `g:<set|->:<ss>:<Kind|->:<len|->`); flags ('.'-joined, only `s` and `z`
 //!           change what the allocator sees, the others only change how the source spells the same thing):
@@ -58,6 +59,8 @@ pub struct Pipe {
     pub dflt: Option<u32>,
     pub graphics: bool,
     pub uses: Vec<usize>,
+    /// the pipeline is built from the entry points of this earlier pipeline of the same kind
+    pub share: Option<usize>,
 }
 
 #[derive(Clone, Debug, PartialEq)]
@@ -140,10 +143,11 @@ fn parse_res(s: &str) -> Option<Res> {
 fn show_pipe(p: &Pipe) -> String {
     let uses: Vec<String> = p.uses.iter().map(|u| u.to_string()).collect();
     format!(
-        "{}:{}:{}:{}",
+        "{}:{}:{}{}:{}",
         p.name,
         p.dflt.map(|d| d.to_string()).unwrap_or_else(|| "-".into()),
         if p.graphics { "g" } else { "c" },
+        p.share.map(|k| format!("={}", k)).unwrap_or_default(),
         uses.join(".")
     )
 }
@@ -153,10 +157,15 @@ fn parse_pipe(s: &str) -> Option<Pipe> {
     if f.len() != 4 {
         return None;
     }
+    let (kind, share) = match f[2].split_once('=') {
+        Some((k, j)) => (k, Some(j.parse::<usize>().ok()?)),
+        None => (f[2], None),
+    };
     Some(Pipe {
         name: f[0].to_string(),
         dflt: if f[1] == "-" { None } else { Some(f[1].parse().ok()?) },
-        graphics: match f[2] { "c" => false, "g" => true, _ => return None },
+        graphics: match kind { "c" => false, "g" => true, _ => return None },
+        share,
         uses: f[3].split('.').filter(|u| !u.is_empty()).map(|u| u.parse().ok()).collect::<Option<Vec<usize>>>()?,
     })
 }
@@ -369,7 +378,17 @@ pub fn source(p: &Prog) -> String {
             _ => String::new(),
         }
     };
+    // a pipeline shares the entry points of an earlier pipeline of the same kind that has its own
+    let owner = |k: usize| -> usize {
+        match p.pipes[k].share {
+            Some(j) if j < k && p.pipes[j].share.is_none() && p.pipes[j].graphics == p.pipes[k].graphics => j,
+            _ => k,
+        }
+    };
     for (k, pipe) in p.pipes.iter().enumerate() {
+        if owner(k) != k {
+            continue;
+        }
         if pipe.graphics {
             let vs: String = pipe.uses.iter().step_by(2).map(|u| use_stmt(*u)).collect();
             let ps: String = pipe.uses.iter().skip(1).step_by(2).map(|u| use_stmt(*u)).collect();
@@ -391,6 +410,7 @@ pub fn source(p: &Prog) -> String {
     }
     for (k, pipe) in p.pipes.iter().enumerate() {
         s.push_str(&format!("Pipeline {}\n{{\n", pipe.name));
+        let k = owner(k);
         if pipe.graphics {
             s.push_str(&format!("    VertexShader = vs{};\n    PixelShader = ps{};\n", k, k));
         } else {
@@ -840,7 +860,18 @@ pub fn gen_prog(rng: &mut Rng, min_pipes: usize) -> Prog {
             _ => Some((first + k as u32) % 4),
         };
         let uses: Vec<usize> = (0..nres).filter(|_| rng.chance(1, 2)).collect();
-        pipes.push(Pipe { name: format!("P{}", k), dflt, graphics: rng.chance(1, 3), uses });
+        let mut pipe = Pipe { name: format!("P{}", k), dflt, graphics: rng.chance(1, 3), uses, share: None };
+        // now and then the same entry points as an earlier pipeline (with, mostly, another default group)
+        if k > 0 && rng.chance(1, 4) {
+            let j = rng.below(k as u64) as usize;
+            let earlier: &Pipe = &pipes[j];
+            if earlier.share.is_none() {
+                pipe.graphics = earlier.graphics;
+                pipe.uses = Vec::new();
+                pipe.share = Some(j);
+            }
+        }
+        pipes.push(pipe);
     }
     Prog { res, pipes }
 }
@@ -848,6 +879,9 @@ pub fn gen_prog(rng: &mut Rng, min_pipes: usize) -> Prog {
 /// all targets x {whole file, each pipeline by name, an unknown name now and then, no-pipeline mode}
 pub fn run_prog(p: &Prog, rng: &mut Rng, out: &mut Out, hist: &mut Hist) {
     hist.add(&format!("e2e:pipes={}", p.pipes.len()));
+    if p.pipes.iter().any(|x| x.share.is_some()) {
+        hist.add("e2e:shared-entry-points");
+    }
     let distinct: std::collections::BTreeSet<u32> = p.pipes.iter().map(|x| x.dflt.unwrap_or(0)).collect();
     hist.add(&format!("e2e:distinct-default-groups={}", distinct.len()));
     for r in &p.res {
